@@ -28,12 +28,15 @@ vars == <<sit, pc, tmp, cwd, outdir, stdout, stderr, exit, readFrom, written>>
 
 \* a temp file is <<kind, owner>>; tmp is the set of entries in $TMPDIR, cwd the set created in the cwd
 Name(p, kind) == IF UniqueNames \/ kind # "outdir" THEN <<kind, p>> ELSE <<kind, 0>>
-BadInput(p)  == sit[p].input \in {"missing", "directory", "empty", "blank"}
+BadInput(p)  == sit[p].input \in {"missing", "directory", "empty", "blank", "unreadable"}      \* "unreadable": a regular non-empty file whose read() fails
 ParseFail(p) == sit[p].input \in {"syntax", "model"}
 Undecodable(p) == sit[p].input = "undecodable"      \* bytes that are not UTF-8
 LibExit(p) == FALSE      \* (was: a report definition the library refuses with sys.exit; since F44 own reports are not generated at all)
 EmitFail(p) == sit[p].out \in {"exists", "baddir", "brokenpipe"}
 FromStdin(p) == sit[p].channel \in {"stdin", "dash"}
+\* faults from outside: "sigint" = the user interrupts the run at an arbitrary point; "fsize" = a temporary copy cannot be
+\* written completely (disk full / RLIMIT_FSIZE): the file exists by then and has to go like every other
+Fault(p) == IF "fault" \in DOMAIN sit[p] THEN sit[p].fault ELSE "none"
 \* stdin cannot deliver a missing file or a directory: those situations read an empty stream
 Reports(p) == {<<"auto", sit[p].format>>}      \* only the command's own report is generated (F44), whatever sit[p].own says
 
@@ -52,6 +55,9 @@ ReadInput(p) ==
   /\ pc[p] = "start"
   /\ IF BadInput(p) THEN Fail(p, 1)
      ELSE IF Undecodable(p) /\ FromStdin(p) THEN Fail(p, 2)      \* the stream cannot be decoded
+     ELSE IF Fault(p) = "fsize" /\ FromStdin(p)
+          THEN /\ tmp' = tmp \cup {Name(p, "stdincopy")}         \* mkstemp succeeded, the write will not
+               /\ pc' = [pc EXCEPT ![p] = "wfail"] /\ UNCHANGED <<sit, cwd, outdir, stdout, stderr, exit, readFrom, written>>
      ELSE /\ tmp' = IF FromStdin(p) THEN tmp \cup {Name(p, "stdincopy")} ELSE tmp
           /\ pc' = [pc EXCEPT ![p] = "hashed"] /\ UNCHANGED <<sit, cwd, outdir, stdout, stderr, exit, readFrom, written>>
 MkOutDir(p) ==
@@ -62,6 +68,9 @@ MkOutDir(p) ==
 MkAuto(p) ==
   /\ pc[p] = "outdir"
   /\ IF Undecodable(p) THEN Fail(p, 2)                           \* the input file cannot be copied as text
+     ELSE IF Fault(p) = "fsize"
+          THEN /\ tmp' = tmp \cup {Name(p, "autofile")}          \* mkstemp succeeded, the write will not
+               /\ pc' = [pc EXCEPT ![p] = "wfail"] /\ UNCHANGED <<sit, cwd, outdir, stdout, stderr, exit, readFrom, written>>
      ELSE /\ tmp' = tmp \cup {Name(p, "autofile")}
           /\ pc' = [pc EXCEPT ![p] = "auto"] /\ UNCHANGED <<sit, cwd, outdir, stdout, stderr, exit, readFrom, written>>
 Run(p) ==
@@ -80,8 +89,8 @@ Emit(p) ==
              IN  /\ cands # {}
                  /\ \E f \in cands :
                        /\ readFrom' = [readFrom EXCEPT ![p] = {f[3]}]
-                       /\ stdout' = [stdout EXCEPT ![p] = IF sit[p].out # "stdout" THEN "none" ELSE IF f[3] = p THEN "auto" ELSE "foreign"]
-                       /\ written' = [written EXCEPT ![p] = IF sit[p].out = "stdout" THEN "none" ELSE IF f[3] = p THEN "auto" ELSE "foreign"]
+                       /\ stdout' = [stdout EXCEPT ![p] = IF sit[p].out \notin {"stdout", "stderrfull"} THEN "none" ELSE IF f[3] = p THEN "auto" ELSE "foreign"]
+                       /\ written' = [written EXCEPT ![p] = IF sit[p].out \in {"stdout", "stderrfull"} THEN "none" ELSE IF f[3] = p THEN "auto" ELSE "foreign"]
           /\ pc' = [pc EXCEPT ![p] = "emitted"] /\ UNCHANGED <<sit, tmp, cwd, outdir, stderr, exit>>
 Cleanup(p) ==
   /\ pc[p] = "emitted"
@@ -92,22 +101,33 @@ Cleanup(p) ==
 \* a process whose output directory was removed under it fails with 2
 Lost(p) == /\ pc[p] \in {"auto", "ran"} /\ Name(p, "outdir") \notin DOMAIN outdir /\ Fail(p, 2)
 
-Next == \E p \in Procs : ReadInput(p) \/ MkOutDir(p) \/ MkAuto(p) \/ Run(p) \/ Emit(p) \/ Cleanup(p) \/ Lost(p)
+\* the half-written copy is removed with everything else
+WriteFail(p) == pc[p] = "wfail" /\ Fail(p, 2)
+\* Ctrl-C between any two steps (the process is alive, nothing or everything may exist already)
+Interrupt(p) == /\ Fault(p) = "sigint" /\ pc[p] \in {"hashed", "outdir", "auto", "ran"} /\ Fail(p, 130)
+
+Next == \E p \in Procs : ReadInput(p) \/ MkOutDir(p) \/ MkAuto(p) \/ Run(p) \/ Emit(p) \/ Cleanup(p) \/ Lost(p) \/ WriteFail(p) \/ Interrupt(p)
 Spec == Init /\ [][Next]_vars /\ WF_vars(Next)
 
 AllDone == \A p \in Procs : pc[p] = "exited"
 \* C19.  AllowedExit: 1 for missing / empty input, 2 when report generation fails.  Input that exists but cannot be
 \* decoded may be called "unreadable input" (1) or a failed generation (2); the help text documents 3 for an existing
 \* --output target while the statement lists only 0 / 1 / 2: both are accepted.
-WantExit(p) == IF BadInput(p) THEN 1 ELSE IF ParseFail(p) \/ LibExit(p) \/ Undecodable(p) \/ EmitFail(p) THEN 2 ELSE 0
+WantExit(p) == IF BadInput(p) THEN 1 ELSE IF ParseFail(p) \/ LibExit(p) \/ Undecodable(p) \/ EmitFail(p) \/ Fault(p) = "fsize" THEN 2 ELSE 0
 \* an own report definition that the library refuses: the command succeeds (F44); calling it a failed generation (2, nothing
 \* emitted, nothing left behind) would also honour the statement
-AllowedExit(p) == IF sit[p].own = "badname" /\ WantExit(p) = 0 THEN {0, 2} ELSE
+\* diagnostics that cannot be written (stderr on a full device): the statement does not say whether that is a failure of its own;
+\* the wanted status or a failure status is accepted -- but nothing may stay behind (NoTrace) and stdout carries the report or nothing
+\* an interrupted run: the statement names no status for it (the shell convention is 130, click's is 1); the run may also
+\* have got through before the signal arrived
+AllowedExit(p) == IF Fault(p) = "sigint" THEN {WantExit(p), 1, 130} ELSE
+                  IF sit[p].out = "stderrfull" THEN {WantExit(p), 1, 2} ELSE
+                  IF sit[p].own = "badname" /\ WantExit(p) = 0 THEN {0, 2} ELSE
                   IF Undecodable(p) THEN {1, 2} ELSE IF ~BadInput(p) /\ ~ParseFail(p) /\ ~LibExit(p) /\ sit[p].out = "exists" THEN {2, 3} ELSE {WantExit(p)}
 ExitContract == \A p \in Procs : pc[p] = "exited" =>
-   /\ exit[p] = WantExit(p)
-   /\ stdout[p] = (IF exit[p] = 0 /\ sit[p].out = "stdout" THEN "auto" ELSE "none")
-   /\ written[p] = (IF exit[p] = 0 /\ sit[p].out # "stdout" THEN "auto" ELSE "none")
+   /\ exit[p] = WantExit(p) \/ (Fault(p) = "sigint" /\ exit[p] = 130)
+   /\ stdout[p] = (IF exit[p] = 0 /\ sit[p].out \in {"stdout", "stderrfull"} THEN "auto" ELSE "none")
+   /\ written[p] = (IF exit[p] = 0 /\ sit[p].out \notin {"stdout", "stderrfull"} THEN "auto" ELSE "none")
    /\ (exit[p] # 0 => stderr[p])
 \* C20
 NoTrace == AllDone => tmp = {} /\ cwd = {} /\ DOMAIN outdir = {}
